@@ -93,10 +93,12 @@ type candInv struct {
 }
 
 type allocRec struct {
+	val   ssa.Value // the Alloc, or a call that returns a fresh object (flag returns-fresh)
 	instr *ssa.Alloc
 	ref   Term
 	typ   types.Type // pointee
 	block *ssa.BasicBlock
+	complete bool // object came complete from a callee (its invariant already holds)
 }
 
 type Enc struct {
@@ -401,6 +403,7 @@ func (e *Enc) heapGet(st *State, key string) Term {
 	e.needSort(srt)
 	c := e.declare("H0_"+sanitize(key), srt)
 	e.heap0[key] = c
+	e.entryHeapOld(key, c)
 	return c
 }
 
@@ -718,6 +721,12 @@ func (e *Enc) instrMod(in ssa.Instruction, li *loopInfo) {
 		li.mod.Add(e.p.mapKey(x.Map.Type().Underlying().(*types.Map)))
 	case *ssa.Alloc, *ssa.MakeMap, *ssa.MakeSlice, *ssa.MakeClosure, *ssa.MakeInterface:
 		li.allocs = true
+	case *ssa.Next:
+		if r, ok := x.Iter.(*ssa.Range); ok {
+			if _, isMap := r.X.Type().Underlying().(*types.Map); isMap {
+				li.mod.Add(e.seenKey(r))
+			}
+		}
 	case ssa.CallInstruction:
 		li.allocs = true
 		li.mod.AddAll(e.callMod(x.Common()))
@@ -1010,4 +1019,71 @@ func (e *Enc) encodeExit() {
 		results = append(results, Val{T: c, Typ: rt})
 	}
 	e.checkPost(results)
+}
+
+// entryHeapOld: every reference stored in the heap at function entry was born before the function started.
+func (e *Enc) entryHeapOld(key string, c Term) {
+	if e.now0.S == "" {
+		return
+	}
+	parts := strings.Split(key, "|")
+	old := func(t string, sort Sort) string {
+		switch sort {
+		case SInt:
+			return fmt.Sprintf("(< (birth %s) %s)", t, e.now0.S)
+		case SSlice:
+			return fmt.Sprintf("(< (birth (s_arr %s)) %s)", t, e.now0.S)
+		}
+		return ""
+	}
+	isRef := func(t types.Type) bool {
+		if t == nil {
+			return false
+		}
+		if isPointerLike(t) {
+			return true
+		}
+		_, ok := t.Underlying().(*types.Slice)
+		return ok
+	}
+	switch parts[0] {
+	case "F":
+		ft := e.p.fieldTypeByKey(key)
+		if !isRef(ft) {
+			return
+		}
+		if b := old(fmt.Sprintf("(select %s qo)", c.S), e.p.SortOf(ft)); b != "" {
+			e.assert(mk(SBool, fmt.Sprintf("(forall ((qo Int)) (! %s :pattern ((select %s qo))))", b, c.S)))
+		}
+	case "G":
+		g, _ := e.p.SSAPkg.Members[parts[1]].(*ssa.Global)
+		if g == nil || !isRef(derefType(g.Type())) {
+			return
+		}
+		if b := old(c.S, e.p.SortOf(derefType(g.Type()))); b != "" {
+			e.assert(mk(SBool, b))
+		}
+	case "MV":
+		if len(parts) < 3 || Sort(parts[2]) != SInt {
+			return
+		}
+		// only maps whose element type is a reference: the key carries the Go type, Int-sorted non-reference elements (ints) also satisfy birth(x) < now0 harmlessly? no: skip ints
+		if len(parts) >= 4 && (strings.HasSuffix(parts[3], "Rint") || strings.HasSuffix(parts[3], "Rbool")) {
+			return
+		}
+		e.assert(mk(SBool, fmt.Sprintf("(forall ((qm Int) (qk %s)) (! (< (birth (select (select %s qm) qk)) %s) :pattern ((select (select %s qm) qk))))", parts[1], c.S, e.now0.S, c.S)))
+	case "E":
+		if len(parts) < 3 || Sort(parts[1]) != SInt {
+			return
+		}
+		switch parts[2] {
+		case "int", "rune", "byte", "int32", "int64", "uint8", "uint", "uint32", "uint64", "int8", "int16", "uint16", "TokenType":
+			return
+		}
+		e.assert(mk(SBool, fmt.Sprintf("(forall ((qa Int) (qi Int)) (! (< (birth (select (select %s qa) qi)) %s) :pattern ((select (select %s qa) qi))))", c.S, e.now0.S, c.S)))
+	case "CV":
+		if len(parts) >= 4 && Sort(parts[3]) == SInt {
+			// cells hold whatever type: only assert for pointer-like cells is not decidable from the key; skip
+		}
+	}
 }
